@@ -302,7 +302,9 @@ impl Minifier
 							return Ok(Navigation::GotoSibling);
 						} else if let Some(prev) = curs.node().prev_named_sibling() {
 							let txt = lang::node_text(&prev,&self.line);
-							if txt.ends_with("\"") || txt.ends_with(")") || txt.ends_with("$") {
+							// a string variable followed by a parenthesis would become an array reference
+							let opens = lang::node_text(&next,&self.line).trim_start().starts_with("(");
+							if txt.ends_with("\"") || txt.ends_with(")") || (txt.ends_with("$") && !opens) {
 								return Ok(Navigation::GotoSibling);
 							}
 						}
